@@ -272,6 +272,49 @@ def _run(ctx):
                 pass
         if i % 500 == 7:
             ctx.sample({"family": fname, "reference": rname, "quantity": str(q), "level": lv.magnitude, "definition": core.sf(want)})
+    # ---- readings right next to the reference (a few parts in 1e12 ... 1e7 above and below it, in the reference's own unit, so
+    # that no conversion is involved): the level is k/prefix * log_base(q/ref) there too - a few 1e-9 dB is not 0 dB -, it is
+    # strictly increasing across the reference, and the round trip gives the reading back
+    state["expect"] = None
+    for fname in fam_names:
+        logarithm, base, prefix = families[fname]
+        for rname, ref, k, alts in refs[:: (3 if ctx.tier == "quick" else 1)]:
+            try:
+                with lib():
+                    lu = logarithm[ref]
+            except Exception:
+                continue
+            c = Decimal(k) / D(prefix) / base.ln()
+            steps = sorted({s_ * e_ for e_ in (1e-12, 1e-11, 1e-10, 5e-10, 1e-9, 3e-9, 1e-8, 1e-7) for s_ in (1, -1)} | {0.0, rng.uniform(1e-10, 1e-9), -rng.uniform(1e-10, 1e-9)})
+            lvls = []
+            for eps in steps:
+                qmag = float(ref.magnitude) * (1 + eps)
+                q = Q(qmag, ref.unit)
+                want = c * (D(qmag) / D(ref.magnitude)).ln()
+                case = {"family": fname, "reference": rname, "quantity": repr(q), "parts_from_the_reference": eps}
+                ctx.count("evaluations")
+                ctx.count("readings_next_to_the_reference")
+                ctx.distinct(("next-to-reference", fname, rname, eps > 0, abs(eps) < 1e-9))
+                try:
+                    with lib():
+                        lv = q.level(lu) if rng.random() < 0.5 else lu.level(q)
+                        back = lv.quantify().in_unit(ref.unit)
+                except Exception as e:
+                    ctx.violation(f"C18:level:raised-{type(e).__name__}", f"({q!r}).level({fname}[{rname}]) raised {type(e).__name__}: {e}", case)
+                    lvls = None
+                    break
+                got = D(lv.magnitude)
+                lvls.append(lv.magnitude)
+                if abs(got - want) > abs(want) * Decimal("1e-9") + abs(c) * Decimal("2e-15"):
+                    ctx.violation("C18:level:wrong-magnitude", f"({q!r}).level({fname}[{rname}]): level {lv.magnitude!r}, definition gives {core.sf(want)!r}", case)
+                    break
+                if abs(D(back.magnitude) - D(qmag)) > abs(D(qmag)) * Decimal("1e-12"):
+                    ctx.violation("C18:round-trip-next-to-the-reference", f"({q!r}).level({fname}[{rname}]).quantify() in the reference's unit = {back!r}", case)
+                    break
+            if lvls and len(lvls) == len(steps) and any(b_ <= a_ for a_, b_ in zip(lvls, lvls[1:])):
+                ctx.violation("C18:not-strictly-increasing", f"{fname}[{rname}] across the reference, {steps}: {lvls}", {"family": fname, "reference": rname})
+            ctx.count("monotone_chains_across_the_reference")
+
     # ---- a unit whose size is corrected at run time (a calibrated "full scale"): the level of the same reading
     # follows the new size at once, through Quantity.level, LogarithmicUnit.level and the round trip
     with lib():
